@@ -18,6 +18,10 @@ var TripUpdateDelay int32
 // DeletedEntity, when not 0, is the index of the entity written with is_deleted = true (a flag of incremental feeds).
 var DeletedEntity int
 
+// EmptyEntities puts a FeedEntity with an id and nothing else (no trip update, vehicle or alert) before, between and
+// after the entities of the message: such an entity says nothing.
+var EmptyEntities bool
+
 // DupEntityIDs makes every trip update and vehicle entity carry the same FeedEntity.id.
 var DupEntityIDs bool
 
@@ -252,6 +256,14 @@ func Entity(i int, e Ent) *gtfsrt.FeedEntity {
 				if s.Prio.Val()%3 == 0 { // the GTFS id may be an agency alone: two segments
 					so = fmt.Sprintf("MTASBWY:%d", s.Prio.Val())
 				}
+				switch s.Prio.Val() { // sort orders that name no priority at all (tokens 42-44 of the spec's pools)
+				case 42:
+					so = "MTASBWY" // no colon
+				case 43:
+					so = "MTASBWY:A:x9" // not a number after the last colon
+				case 44:
+					so = ""
+				}
 				proto.SetExtension(sel, gtfsrt.E_MercuryEntitySelector, &gtfsrt.MercuryEntitySelector{SortOrder: &so})
 			}
 			al.InformedEntity = append(al.InformedEntity, sel)
@@ -267,7 +279,18 @@ func Entity(i int, e Ent) *gtfsrt.FeedEntity {
 		if e.Mercury.IsSome() {
 			c, u := Timestamps[e.Mercury.Val()], Timestamps[e.Mercury.Val()]+60
 			at := "Planned Work"
-			proto.SetExtension(al, gtfsrt.E_MercuryAlert, &gtfsrt.MercuryAlert{CreatedAt: &c, UpdatedAt: &u, AlertType: &at})
+			ma := &gtfsrt.MercuryAlert{CreatedAt: &c, UpdatedAt: &u, AlertType: &at}
+			if e.ID%2 == 1 || len(e.Sels) > 1 { // a human readable active period, in one or two languages
+				en, html := "en", "en-html"
+				t1, t2 := "Weekends, until further notice", "<p>Weekends</p>"
+				ma.HumanReadableActivePeriod = &gtfsrt.TranslatedString{Translation: []*gtfsrt.TranslatedString_Translation{{Text: &t1, Language: &en}}}
+				if len(e.Sels) > 1 {
+					ma.HumanReadableActivePeriod.Translation = append(ma.HumanReadableActivePeriod.Translation, &gtfsrt.TranslatedString_Translation{Text: &t2, Language: &html})
+				}
+				d := uint64(3600)
+				ma.DisplayBeforeActive = &d
+			}
+			proto.SetExtension(al, gtfsrt.E_MercuryAlert, ma)
 		}
 		fe.Alert = al
 	default:
@@ -281,10 +304,16 @@ func Bytes(msg Msg, order []int) []byte {
 	version := "2.0"
 	m := &gtfsrt.FeedMessage{Header: &gtfsrt.FeedHeader{GtfsRealtimeVersion: &version, Timestamp: optTs(msg.Ts)}}
 	byIndex := map[int]*gtfsrt.FeedEntity{}
-	for _, i := range order {
+	for k, i := range order {
+		if EmptyEntities {
+			m.Entity = append(m.Entity, &gtfsrt.FeedEntity{Id: sp(fmt.Sprintf("x%d", k))})
+		}
 		fe := Entity(i, msg.Ents[i-1])
 		byIndex[i] = fe
 		m.Entity = append(m.Entity, fe)
+	}
+	if EmptyEntities {
+		m.Entity = append(m.Entity, &gtfsrt.FeedEntity{Id: sp("x")})
 	}
 	for _, pair := range msg.Fuse {
 		keep, drop := byIndex[pair[0]], byIndex[pair[1]]
